@@ -7,7 +7,7 @@ SPEC['C01'] = ('Top-down require returns what a from-scratch build would return'
 ], 'PARTIAL. The full statement (incremental = from-scratch for every program of the class and every history) is decided by the correspondence run and the fresh-instance oracle; the staged proof (Validity, valid_replay) is not finished. See DESIGN.md section 6 C01.')
 SPEC['C02'] = ('Top-down build does no unnecessary work', ['Local', 'Local2', 'History', 'ExecInv', 'ExecSession'], [
   ('C02_at_most_once_per_session', 'ExecSession', 'session_td_at_most_once',
-   'for ALL programs, checkers, fuel, stores satisfying the store invariant (every reachable store does: C06_store_invariant_all_histories) and ALL sessions of requires: the session event stream contains no task execution twice (also when the session ends in an abort)'),
+   'for ALL programs, checkers, fuel, stores satisfying the store invariants J (every store reachable by top-down histories does: C19_no_internal_error_all_histories) and ALL sessions of requires: the session event stream contains no task execution twice (also when the session ends in an abort)'),
   ('C02_executed_only_if_not_yet_consistent', 'ExecSession', 'session_require_execs',
    'every task executed by a require was not yet consistent (checked or executed) in this session when the require started, is executed once, and is consistent when the require returns'),
   ('C02_memo', 'Local', 'make_consistent_memo', 'a task already made consistent in this session is returned from the cache: no event, no state change, hence no second execution'),
@@ -74,11 +74,15 @@ SPEC['C18'] = ('Checker errors during validation never cause stale reuse and are
   ('C18_td_error', 'Local', 'check_deps_error', 'top-down: an erring resource checker ends validation with "inconsistent", pushes the error, never aborts'),
   ('C18_bu_error', 'Local', 'try_schedule_error', 'bottom-up: an erring checker pushes the error and schedules the task'),
 ], 'For arbitrary checker records and worlds.')
-SPEC['C19'] = ('An aborted build leaves the Pie instance usable and sound', ['Local', 'History'], [
+SPEC['C19'] = ('An aborted build leaves the Pie instance usable and sound', ['Local', 'History', 'ExecInv', 'ExecSession'], [
+  ('C19_no_internal_error_all_histories', 'ExecSession', 'history_td_no_internal_error',
+   'for ALL programs, checkers, fuel and ALL histories of top-down sessions and external changes from the empty store: every session result is a value, a user-level abort (task panic, cycle, hidden dependency, overlapping write) or out-of-fuel -- never one of the internal-invariant panics (ABug 1 reserved dependency checked, 2 consistent task without output, 3 require dependency missing, 5 edge without data) -- and the final store satisfies both store invariants (J), whatever aborted before. ABug 4 = model-only graph search fuel'),
+  ('C19_abort_leaves_invariants', 'ExecSession', 'session_require_execs',
+   'one require from any store satisfying J: if it aborts, the abort is user-level and J holds in the store left behind (reserved edges only leave tasks without output; consistent tasks have outputs), so the next session starts from J again'),
   ('C19_store_invariant_survives_aborts', 'History', 'run_history_ok', 'whatever aborts (task panic, cycle, hidden dependency, overlapping write, at any point), the world left behind satisfies the store invariant, from which every later session starts'),
   ('C19_no_output_executes', 'Local', 'make_consistent_no_output',
    'a task without output (new, or its last execution aborted) is executed without inspecting its left-over dependencies (so a ReservedRequire edge is never consistency-checked)'),
-], 'PARTIAL: the Recoverable invariant over all abort points is in progress; decided by correspondence + oracle (panic injected at arbitrary operations).')
+], 'No-internal-error and invariant recovery are proved for all top-down histories (ExecInv.v, ExecSession.v); that later builds return from-scratch results (the C01 clause) is decided by correspondence + oracle (panic injected at arbitrary operations).')
 SPEC['C20'] = ('Incremental builds abort only for violations that exist now', ['Local', 'Findings'], [
   ('C20_write_abort_iff_recorded', 'Local', 'validate_write_none', 'a write is accepted exactly when no writer is recorded and every recorded reader transitively requires the writer'),
   ('C20_write_abort_only_then', 'Local', 'sess_write_abort_only', 'aborts of a write come only from that diagnosis'),
